@@ -2,8 +2,11 @@
    arbitrary commutative *-ring R (so in particular for real and complex x, y), for every
    operator expression; D A = den ... noforce A is the denotation of coq/model/Linop.v. *)
 From Coq Require Import ZArith List Bool.
-From SV Require Import lib.Scalar lib.BigSum lib.NdArray lib.Gather model.Rearrange model.Linop
-  proofs.LinopTheory proofs.LinopLeaves proofs.Rearrange proofs.LinopScale proofs.LinopLeavesA.
+From SV Require Import lib.Scalar lib.BigSum lib.NdArray lib.Gather model.Rearrange model.Block model.Linop
+  proofs.LinopTheory proofs.LinopLeaves proofs.Rearrange proofs.LinopScale proofs.LinopLeavesA proofs.LinopStack proofs.LinopLeavesB proofs.LinopLeavesB2.
+(* gen.Gen_linop_table: the _adjoint_linop / _normal_linop table GENERATED from linop.py, with lemmas gen_*_ok stating
+   that it equals the hand model's adj / normal; importing it makes those lemmas part of this property's proof cone *)
+From SV Require gen.Gen_linop_table.
 Import ListNotations.
 Local Open Scope Z_scope.
 
@@ -143,6 +146,123 @@ Theorem C01_adjoint_unconditional_fragment_A : forall (R : StarRing) arr scal or
   wf A = true -> nodes_ok (fun L => proven_nodeA L = true /\ wf L = true) A -> apair R arr scal orc A.
 Proof. exact adj_correct_provenA. Qed.
 Print Assumptions C01_adjoint_unconditional_fragment_A.
+
+(* ---- stacking combinators, every axis in [-ndim, ndim) and None (proofs/LinopStack.v) ---- *)
+
+
+Theorem C01_hstack_adjoint :
+  forall (R : StarRing) arr scal orc ls axis,
+    wf (Hstack ls axis) = true ->
+    Forall (fun a => forall x y, inner (oshape_of a) (D R arr scal orc a x) y = inner (ishape_of a) x (D R arr scal orc (adj a) y)) ls ->
+    Forall (fun a => forall o i, shapes a = Ok (o, i) -> shapes (adj a) = Ok (i, o)) ls ->
+    forall x y, inner (oshape_of (Hstack ls axis)) (D R arr scal orc (Hstack ls axis) x) y
+              = inner (ishape_of (Hstack ls axis)) x (D R arr scal orc (Vstack (map adj ls) axis) y).
+Proof. exact apair_hstack. Qed.
+
+Theorem C01_vstack_adjoint :
+  forall (R : StarRing) arr scal orc ls axis,
+    wf (Vstack ls axis) = true ->
+    Forall (apair R arr scal orc) ls -> Forall adj_shape_ok ls ->
+    forall x y, inner (oshape_of (Vstack ls axis)) (D R arr scal orc (Vstack ls axis) x) y
+              = inner (ishape_of (Vstack ls axis)) x (D R arr scal orc (Hstack (map adj ls) axis) y).
+Proof. exact apair_vstack. Qed.
+
+Theorem C01_diag_adjoint :
+  forall (R : StarRing) arr scal orc ls oaxis iaxis,
+    wf (Diag ls oaxis iaxis) = true ->
+    Forall (apair R arr scal orc) ls -> Forall adj_shape_ok ls ->
+    forall x y, inner (oshape_of (Diag ls oaxis iaxis)) (D R arr scal orc (Diag ls oaxis iaxis) x) y
+              = inner (ishape_of (Diag ls oaxis iaxis)) x (D R arr scal orc (Diag (map adj ls) iaxis oaxis) y).
+Proof. exact apair_diag. Qed.
+
+Theorem C01_adjoint_through_stacking :
+  forall (R : StarRing) arr scal orc A,
+    wf A = true ->
+    nodes_ok' (fun L => (forall x y, inner (oshape_of L) (D R arr scal orc L x) y = inner (ishape_of L) x (D R arr scal orc (adj L) y))
+                        /\ (forall o i, shapes L = Ok (o, i) -> shapes (adj L) = Ok (i, o))) A ->
+    (forall x y, inner (oshape_of A) (D R arr scal orc A x) y = inner (ishape_of A) x (D R arr scal orc (adj A) y))
+    /\ (forall o i, shapes A = Ok (o, i) -> shapes (adj A) = Ok (i, o)).
+Proof. exact adj_correct_stack. Qed.
+
+Theorem C01_adjoint_unconditional_fragment_with_stacking :
+  forall (R : StarRing) arr scal orc A,
+    wf A = true -> nodes_ok' (fun L => proven_node L = true /\ wf L = true) A ->
+    forall x y, inner (oshape_of A) (D R arr scal orc A x) y = inner (ishape_of A) x (D R arr scal orc (adj A) y).
+Proof. exact adj_correct_stack_proven. Qed.
+Print Assumptions C01_hstack_adjoint.
+Print Assumptions C01_vstack_adjoint.
+Print Assumptions C01_diag_adjoint.
+Print Assumptions C01_adjoint_through_stacking.
+Print Assumptions C01_adjoint_unconditional_fragment_with_stacking.
+
+(* ---- Multiply (any broadcast), MatMul / RightMatMul (any batch broadcast), block operators 1-3 D (proofs/LinopLeavesB*.v) ---- *)
+
+
+Theorem C01_multiply_adjoint :
+  forall (R : StarRing) arr scal orc i m c,
+    wf (Multiply i m c) = true -> apair R arr scal orc (Multiply i m c).
+Proof. exact apair_multiply. Qed.
+Print Assumptions C01_multiply_adjoint.
+
+Theorem C01_matmul_adjoint :
+  forall (R : StarRing) arr scal orc i a adjoint,
+    wf (MatMul i a adjoint) = true -> apair R arr scal orc (MatMul i a adjoint).
+Proof. exact apair_matmul. Qed.
+
+Theorem C01_right_matmul_adjoint :
+  forall (R : StarRing) arr scal orc i a adjoint,
+    wf (RightMatMul i a adjoint) = true -> apair R arr scal orc (RightMatMul i a adjoint).
+Proof. exact apair_right_matmul. Qed.
+
+Theorem C01_array_to_blocks_1d_adjoint :
+  forall (R : StarRing) arr scal orc i Bk Sk,
+    i <> [] -> 0 < Sk -> wf (ArrayToBlocks i [Bk] [Sk]) = true -> apair R arr scal orc (ArrayToBlocks i [Bk] [Sk]).
+Proof. exact apair_array_to_blocks_1d. Qed.
+
+Theorem C01_blocks_to_array_1d_adjoint :
+  forall (R : StarRing) arr scal orc o Bk Sk,
+    o <> [] -> 0 < Sk -> wf (BlocksToArray o [Bk] [Sk]) = true -> apair R arr scal orc (BlocksToArray o [Bk] [Sk]).
+Proof. exact apair_blocks_to_array_1d. Qed.
+
+Theorem C01_array_to_blocks_2d_adjoint :
+  forall (R : StarRing) arr scal orc i By Bx Sy Sx,
+    (2 <= length i)%nat -> 0 < Sy -> 0 < Sx ->
+    wf (ArrayToBlocks i [By; Bx] [Sy; Sx]) = true -> apair R arr scal orc (ArrayToBlocks i [By; Bx] [Sy; Sx]).
+Proof. exact apair_array_to_blocks_2d. Qed.
+
+Theorem C01_blocks_to_array_2d_adjoint :
+  forall (R : StarRing) arr scal orc o By Bx Sy Sx,
+    (2 <= length o)%nat -> 0 < Sy -> 0 < Sx ->
+    wf (BlocksToArray o [By; Bx] [Sy; Sx]) = true -> apair R arr scal orc (BlocksToArray o [By; Bx] [Sy; Sx]).
+Proof. exact apair_blocks_to_array_2d. Qed.
+
+Theorem C01_array_to_blocks_3d_adjoint :
+  forall (R : StarRing) arr scal orc i Bz By Bx Sz Sy Sx,
+    (3 <= length i)%nat -> 0 < Sz -> 0 < Sy -> 0 < Sx ->
+    wf (ArrayToBlocks i [Bz; By; Bx] [Sz; Sy; Sx]) = true -> apair R arr scal orc (ArrayToBlocks i [Bz; By; Bx] [Sz; Sy; Sx]).
+Proof. exact apair_array_to_blocks_3d. Qed.
+
+Theorem C01_blocks_to_array_3d_adjoint :
+  forall (R : StarRing) arr scal orc o Bz By Bx Sz Sy Sx,
+    (3 <= length o)%nat -> 0 < Sz -> 0 < Sy -> 0 < Sx ->
+    wf (BlocksToArray o [Bz; By; Bx] [Sz; Sy; Sx]) = true -> apair R arr scal orc (BlocksToArray o [Bz; By; Bx] [Sz; Sy; Sx]).
+Proof. exact apair_blocks_to_array_3d. Qed.
+
+Theorem C01_adjoint_unconditional_fragment_B :
+  forall (R : StarRing) arr scal orc A,
+    wf A = true -> nodes_ok (fun L => (proven_node L || proven_nodeB2 L) = true /\ wf L = true) A ->
+    forall x y, inner (oshape_of A) (D R arr scal orc A x) y = inner (ishape_of A) x (D R arr scal orc (adj A) y).
+Proof. exact adj_correct_provenB2. Qed.
+Print Assumptions C01_adjoint_unconditional_fragment_B.
+
+Theorem C01_adjoint_unconditional_fragment_B1 :
+  forall (R : StarRing) arr scal orc A,
+    wf A = true -> nodes_ok (fun L => (proven_node L || proven_nodeB L) = true /\ wf L = true) A ->
+    forall x y, inner (oshape_of A) (D R arr scal orc A x) y = inner (ishape_of A) x (D R arr scal orc (adj A) y).
+Proof. exact adj_correct_provenB. Qed.
+Print Assumptions C01_multiply_adjoint.
+Print Assumptions C01_adjoint_unconditional_fragment_B.
+Print Assumptions C01_adjoint_unconditional_fragment_B1.
 
 (* non-vacuity: a depth-3 tree mixing Resize / Flip / Downsample / Conj / + / composition is well-formed *)
 Example C01_example_tree_wf :
